@@ -414,3 +414,63 @@ def s6(prog):
             findings.append({"key": key, "where": "libzwerg/" + be["l"],
                              "msg": bad + ": a nested block would capture the outer binding instead of the textually enclosing one (inner binders must shadow outer ones)", "detail": None})
     return inst, findings
+
+
+def s7(prog):
+    """one up-reference table per block: build_exec/build_pred interpreted on a node of every tree kind; every nested build_exec /
+    build_pred call must be handed the very table of the enclosing block (by reference) - up-value ids are allocated in it lazily at the
+    first read, and the BLOCK case later captures exactly the ids recorded in it - except that the body of a BLOCK gets the new table
+    created from (enclosing bindings, enclosing table).  A copy (by-value parameter, local copy) makes ids allocated below it invisible
+    to the capture."""
+    from r_scope import tree_types
+    inst, findings = [], []
+    tt = tree_types(prog)
+    be = prog.func_opt("(anonymous namespace)::build_exec")
+    bp = prog.func_opt("(anonymous namespace)::build_pred")
+    if be is None or bp is None:
+        raise Broken("anchor build_exec/build_pred vanished")
+    n_kinds = n_chains = 0
+    for kind in sorted(tt):
+        ev = BuildEval(prog)
+        made_up = []
+
+        def mk_up(ev_, o, a, made_up=made_up):
+            u = Obj("uprefs")
+            u.origin = ("inner", a[1]) if len(a) == 2 else (("copy", a[0]) if len(a) == 1 else ("fresh", None))
+            made_up.append(u)
+            return u
+        ev.hooks["ctor:uprefs"] = mk_up
+        ev.found = Binding(False)
+        ev.found_up = None
+        L0, BN0, UP0, US0 = Layout(), Scope(None, fresh=False), Obj("uprefs"), Sym.of("upstream")
+        t = mktree(tt, kind, ARITY.get(kind, 3 if kind == "IFELSE" else 2), "NOP", False, 1)
+        try:
+            if kind.startswith("PRED_"):
+                ev.call(bp, None, [t, L0, Sym.of("rdv0"), BN0, UP0])
+            else:
+                ev.call(be, None, [t, L0, Sym.of("rdv0"), US0, BN0, UP0])
+        except (OutOfBounds, Thrown, Broken):
+            continue          # kinds that cannot be built from a bare node (builtins, leaves that need payload): no nested calls to examine
+        chains = ev.trace["chains"]
+        if not chains:
+            continue
+        n_kinds += 1
+        key = "S7:" + kind
+        bad = None
+        for c in chains:
+            n_chains += 1
+            if c.up is UP0:
+                continue
+            org = getattr(c.up, "origin", None)
+            if kind == "BLOCK" and org and org[0] == "inner" and org[1] is UP0:
+                continue
+            bad = bad or (c.loc, "a copy of the enclosing table" if org and org[0] == "copy" else "a different table")
+        inst.append((key, {"nested_builds": len(chains)}))
+        if bad:
+            findings.append({"key": key, "where": "libzwerg/" + str(bad[0] or be["l"]),
+                             "msg": "building a %s node hands its sub-expression %s instead of the block's own up-reference table: an outer name first read below this node gets an "
+                                    "up-value id that the enclosing block never records, so the block captures too few values or two names share one slot" % (kind, bad[1]),
+                             "detail": None})
+    if n_kinds < 12:
+        raise Broken("S7 could interpret only %d tree kinds with nested builds (floor 12)" % n_kinds)
+    return inst, findings
